@@ -32,6 +32,9 @@ type EvalCtx struct {
 	block    *ssa.BasicBlock
 	inOld    bool
 	tuples   map[*Term][]CV
+	altBlock *ssa.BasicBlock       // body block whose definitions are visible too (loop step clauses)
+	prevPhis map[*ssa.Phi]*Term    // header values of the loop-carried variables, for prev(e)
+	prevState *State
 }
 
 func (ex *Exec) newEvalCtx(fn *ssa.Function, st, old *State) *EvalCtx {
@@ -293,14 +296,26 @@ func (ctx *EvalCtx) ident(name string) CV {
 		ctx.fail("rangeidx used outside a range loop header")
 	}
 	if v, ok := ctx.vars[name]; ok {
-		if ctx.inOld {
-			// parameters keep their entry value; locals are taken as they are
+		// a parameter that the function assigns to lives in a local cell; inside the body (invariants,
+		// step clauses, site assertions) its current value is meant, in pre/postconditions its entry value
+		if ctx.frame != nil && ctx.block != nil && !ctx.inOld {
+			if cell := ctx.frame.paramCell(name); cell != nil {
+				pt := types.Unalias(cell.Type()).Underlying().(*types.Pointer).Elem()
+				if _, ok := ctx.frame.env[cell]; ok {
+					return CV{ctx.ex.load(ctx.st, ctx.frame.val(cell), pt), pt}
+				}
+			}
 		}
 		return v
 	}
 	if ctx.frame != nil {
 		if cv, ok := ctx.frame.localByName(ctx.st, name, ctx.block); ok {
 			return cv
+		}
+		if ctx.altBlock != nil {
+			if cv, ok := ctx.frame.localByName(ctx.st, name, ctx.altBlock); ok {
+				return cv
+			}
 		}
 	}
 	// package-level constant of the function's own package
@@ -624,6 +639,25 @@ func (ctx *EvalCtx) callExpr(x *ast.CallExpr) CV {
 			ctx.inOld = true
 			v := ctx.eval(x.Args[0])
 			ctx.inOld = saved
+			return v
+		case "prev":
+			if ctx.prevPhis == nil || ctx.frame == nil {
+				ctx.fail("prev() is only available in 'loop <n> step' clauses")
+			}
+			cur := map[*ssa.Phi]*Term{}
+			for p, v := range ctx.prevPhis {
+				cur[p] = ctx.frame.env[p]
+				ctx.frame.env[p] = v
+			}
+			savedSt := ctx.st
+			if ctx.prevState != nil {
+				ctx.st = ctx.prevState
+			}
+			v := ctx.eval(x.Args[0])
+			ctx.st = savedSt
+			for p, c := range cur {
+				ctx.frame.env[p] = c
+			}
 			return v
 		case "imp":
 			a, b := ctx.eval(x.Args[0]), ctx.eval(x.Args[1])
